@@ -147,6 +147,9 @@ impl Builtins {
                         let mut vm =
                             VM::with_pointer(self.strict, op_pointer, base_path)
                                 .with_import_stack(nested_stack);
+                        // "One output per file" is counted per evaluation of the
+                        // file: building it earlier in this invocation does not count.
+                        env.borrow_mut().reset_out_lock_for_path(path.as_ref());
                         vm.run(env)?;
                         let result = Rc::new(vm.symbols_to_tuple(true));
                         env.borrow_mut()
